@@ -131,6 +131,17 @@ func propC06Read(t *rapid.T) {
 	if d := live.Check(rb, want); d != "" {
 		t.Fatalf("%s read a spec-conformant stream as another set: %s\n  set=%s [%s]", entryNames[entry], d, want, desc)
 	}
+	if entry == 0 || entry == 3 {
+		// the copying entry points do not keep the caller's bytes
+		saved := append([]byte(nil), enc...)
+		for i := range enc {
+			enc[i] = 0x3C ^ byte(i)
+		}
+		if d := live.Check(rb, want); d != "" {
+			t.Fatalf("%s: the decoded bitmap changed when the input bytes were overwritten afterwards: %s [%s]", entryNames[entry], d, desc)
+		}
+		copy(enc, saved)
+	}
 	for i := 0; i < 8; i++ {
 		x := gen.Value32(t, "x", want)
 		if g, w := rb.Contains(x), want.Contains(uint64(x)); g != w {
